@@ -2,7 +2,7 @@
    Only statements closed by [exact]; proofs live in proofs/MetaStoreProofs.v.
    gen/McpCalls.v is regenerated from internal/mcpserver on every run. *)
 From Coq Require Import String.
-From KS Require Import lib.Base lib.Strings model.MetaStore gen.McpCalls proofs.MetaStoreProofs.
+From KS Require Import lib.Base lib.Strings model.MetaStore gen.McpCalls proofs.MetaStoreProofs proofs.MetaStoreMcp.
 Open Scope Z_scope.
 
 (* (1) finite, over the regenerated table: every store method reachable from any
